@@ -99,6 +99,7 @@ NextHistories == \E k \in 1..HistLen : \E s \in [1..k -> Ops] : \E x \in {R(0), 
 \* ---- C06 ----------------------------------------------------------------------------------------------------------
 SInst == Inst("min", << V(1, "integer", B(R(0), R(3))), V(2, "binary", <<>>), V(5, "continuous", B(R(-1), PInf)) >>, L(<< T(1, R(1)), T(2, R(-1)) >>, Zero),
               << C(10, "le", L(<< T(1, R(1)), T(2, R(1)) >>, R(-2))) >>, << Rm(C(12, "eq", L(<< T(1, R(1)) >>, R(-1))), "r0") >>, <<>>)
+SInstFixed == [SInst EXCEPT !.vars = << V(1, "integer", B(R(0), R(3))), V(2, "binary", <<>>), [V(5, "continuous", B(R(-1), PInf)) EXCEPT !.fixed = <<R(2)>>] >>]
 SStates == << << <<1, R(1)>>, <<2, R(1)>>, <<5, R(0)>> >>, << <<1, R(2)>>, <<2, R(1)>> >>, << <<1, R(0)>>, <<2, R(0)>>, <<5, R(-1)>> >> >>
 \* samples: ids 0, 3, 8 ; assignment of a state to each id; same-state ids grouped in one entry or kept apart
 NextSamples == \E n \in 1..3 : \E asg \in [1..n -> 1..3], grouped \in BOOLEAN :
@@ -107,7 +108,7 @@ NextSamples == \E n \in 1..3 : \E asg \in [1..n -> 1..3], grouped \in BOOLEAN :
         entries == IF grouped THEN [ k \in 1..Cardinality(used) |-> LET s == SetToSeq(used)[k] IN
                                        [state |-> << SStates[s] >>, ids |-> SelectSeq(SubSeq(ids, 1, n), LAMBDA x : asg[CHOOSE i \in 1..n : ids[i] = x] = s)] ]
                    ELSE [ i \in 1..n |-> [state |-> << SStates[asg[i]] >>, ids |-> << ids[i] >>] ]
-    IN vec' = Ev("evaluate_samples", [inst |-> SInst, samples |-> entries])
+    IN \E I \in {SInst, SInstFixed} : vec' = Ev("evaluate_samples", [inst |-> I, samples |-> entries])
 \* ---- growth: Samples::add_sample / transpose -------------------------------------------------------------------------------
 NextSamplesHelpers == \E n \in 1..3 : \E asg \in [1..n -> 1..3] :
     vec' = Ev("samples_helpers", [adds |-> [ i \in 1..n |-> << <<4, 0, 9>>[i], SStates[asg[i]] >> ]])
